@@ -431,6 +431,31 @@ def _truth_key(k, facts):
     return None
 
 
+def deep_walk(res, t, keep=()):
+    """Every sub-term of t, looking through loop-carried variables: a phi is followed into the values it can hold (so a list
+    built by appends in a loop exposes what was appended). Phis listed in `keep` are reported but not followed."""
+    from .terms import walk
+    seen, todo = set(), [t]
+    while todo:
+        for x in walk(todo.pop()):
+            yield x
+            if x[0] == "phi" and x not in keep and x not in seen:
+                seen.add(x)
+                todo.extend(res.phis.get((x[1], x[2]), ()))
+
+
+def order_facts(facts):
+    """(op, a, b) for every order relation known true on the path, whichever way the code spelled the test:
+    a < b false is b <= a, a <= b false is b < a."""
+    for k, v in facts.items():
+        if k[0] != "cmp" or k[1] not in ("Lt", "LtE"):
+            continue
+        if v is True:
+            yield k[1], k[2], k[3]
+        elif v is False:
+            yield ("LtE" if k[1] == "Lt" else "Lt"), k[3], k[2]
+
+
 def _eq_facts(t, facts):
     """(const term, truth) for every fact `t == const`."""
     for fk, fv in facts.items():
@@ -705,7 +730,7 @@ class Analyzer:
         load = _as_load(st.target)
         for s2, cur in self.eval(load, s):
             for s3, v in self.eval(st.value, s2):
-                out.append(self.assign(st.target, ("binop", type(st.op).__name__, cur, v), s3, st))
+                out.append(self.assign(st.target, _fold_int(type(st.op).__name__, cur, v), s3, st))
         return out
 
     def s_Delete(self, st, s, j):
@@ -856,7 +881,49 @@ class Analyzer:
             out.extend(self._pop_ctx(b, c) for b in lj["break"])
         return out
 
+    def _unroll_while(self, st, s, limit=8):
+        """A `while` whose test is decided by integer literals on entry and after every iteration (a constant counter such as
+        `shift = 12; while shift: shift -= 6; ...`) is the straight-line repetition of its body. None = not such a loop."""
+        if st.orelse or any(isinstance(n, (ast.Break, ast.Continue, ast.While, ast.For, ast.ListComp, ast.GeneratorExp, ast.SetComp,
+                                           ast.DictComp, ast.Try, ast.With)) for b in st.body for n in ast.walk(b)):
+            return None
+        names = {n.id for n in ast.walk(st.test) if isinstance(n, ast.Name)}
+        if not names or not all(isinstance(n, (ast.Name, ast.Constant, ast.Compare, ast.UnaryOp, ast.Not, ast.Load, ast.cmpop, ast.BoolOp,
+                                               ast.And, ast.Or)) for n in ast.walk(st.test)):
+            return None
+        if not all(s.env.get(self._k(n), ("?",))[0] == "const" for n in names):
+            return None
+        snap = (len(self.res.events), len(self.res.returns), len(self.res.raises), [len(fr["returns"]) for fr in self._frames])
+
+        def rollback():
+            del self.res.events[snap[0]:], self.res.returns[snap[1]:], self.res.raises[snap[2]:]
+            for fr, n in zip(self._frames, snap[3]):
+                del fr["returns"][n:]
+        states, out = [s], []
+        for _ in range(limit + 1):
+            nxt = []
+            for s1 in states:
+                for s2, v in self.eval(st.test, s1):
+                    tv = truth(v, s2.facts) if v[0] != "const" else bool(v[1])
+                    if v[0] != "const" and not all(s2.env.get(self._k(n), ("?",))[0] == "const" for n in names):
+                        tv = None
+                    if tv is None:
+                        rollback()
+                        return None
+                    if tv:
+                        nxt.extend(self.exec_block(st.body, [s2], {"break": [], "continue": []}))
+                    else:
+                        out.append(s2)
+            states = nxt
+            if not states:
+                return out
+        rollback()
+        return None
+
     def s_While(self, st, s, j):
+        unrolled = self._unroll_while(st, s)
+        if unrolled is not None:
+            return unrolled
         self._loop_n += 1
         lid = self._loop_n
         self.res.loops[lid] = st
@@ -1161,7 +1228,7 @@ class Analyzer:
         out = []
         for s2, l in self.eval(e.left, s):
             for s3, r in self.eval(e.right, s2):
-                out.append((s3, ("binop", op, l, r)))
+                out.append((s3, _fold_int(op, l, r)))
         return out
 
     def e_BoolOp(self, e, s):
@@ -1203,7 +1270,7 @@ class Analyzer:
         operands = [e.left] + list(e.comparators)
         out = []
         for s1, ts in self.eval_seq(operands, s):
-            cmps = [("cmp", type(op).__name__, ts[i], ts[i + 1]) for i, op in enumerate(e.ops)]
+            cmps = [self._sentinel_identity(("cmp", type(op).__name__, ts[i], ts[i + 1])) for i, op in enumerate(e.ops)]
             if len(cmps) == 1:
                 out.append((s1, cmps[0]))
                 continue
@@ -1219,6 +1286,77 @@ class Analyzer:
                 if cur is None:
                     break
         return out
+
+    def _keyed_update(self, e, f, args_t, kwargs):
+        """[(key, value term)] when the call is `<dict>.update(...)` with literal string keys only, else None."""
+        if not (isinstance(e.func, ast.Attribute) and e.func.attr == "update" and f[0] == "attr") or _immutable_recv(f[1]):
+            return None
+        if any(k is None for k, _v in kwargs) or len(args_t) > 1:
+            return None
+        out = []
+        if args_t:
+            d = args_t[0]
+            if d[0] != "dict" or not all(k[0] == "const" and isinstance(k[1], str) and k[1] != "**" for k, _v in d[1]):
+                return None
+            out.extend((k[1], v) for k, v in d[1])
+        out.extend(kwargs)
+        root = f[1]
+        while root[0] == "mut":
+            root = root[1]
+        # only for dict-like receivers the package owns: a cache attribute or a dict created here
+        if not (root[0] == "dict" or (root[0] == "attr" and root[2] == "_cache") or (root[0] == "param" and "cache" in root[1])):
+            return None
+        return out or None
+
+    def _sentinel_identity(self, c):
+        """`<literal> is SENTINEL` where SENTINEL is a module-level object created by a call (`_MISSING = object()`) or
+        an Enum member (`UNDEFINED = UndefinedType._singleton`): a string / number / None literal is never that object."""
+        if c[1] not in ("Is", "IsNot"):
+            return c
+        for a, b in ((c[2], c[3]), (c[3], c[2])):
+            if a[0] in ("const", "fstr", "binop", "cmp", "tuple", "list", "dict", "set", "comp", "call", "new") \
+                    and b[0] == "global" and b[1] in self.model.modules:
+                if a[0] == "call" and self._may_return(a, b[2]):
+                    continue
+                r = self.model.resolve_global(b[1], b[2])
+                if r and r[0] == "value" and len(r[3]) == 1:
+                    v = getattr(r[3][0], "value", None)
+                    member = isinstance(v, ast.Attribute) and isinstance(v.value, ast.Name) and \
+                        (self.model.resolve_global(r[1], v.value.id) or (None,))[0] == "class"      # an Enum member
+                    if isinstance(v, ast.Call) or member:
+                        return ("const", c[1] == "IsNot")
+        return c
+
+    def _may_return(self, call, name):
+        """Can this call hand back the module-level object `name`? Only package code can: a resolved package callee whose
+        body returns that name (directly or through another package call we do not follow: then we say yes)."""
+        f = call[1]
+        fi = None
+        from .terms import walk as _walk
+        if any(x[0] == "global" and x[2] == name for a in tuple(call[2]) + tuple(v for _k, v in call[3]) for x in _walk(a)):
+            return True         # the object is passed in (d.get(k, SENTINEL), getattr(o, n, SENTINEL), ...)
+        if f[0] == "global" and f[1] in self.model.modules:
+            r = self.model.resolve_global(f[1], f[2])
+            if r and r[0] in ("func", "memo_alias"):
+                fi = r[1]
+            elif r and r[0] == "value":
+                return False        # an instance being called (quoters): their __call__ returns text
+            elif r and r[0] == "class":
+                return False
+        elif f[0] == "attr" and f[1] in (("param", "self"), ("param", "cls")) and self.fi.cls:
+            q = f"{self.fi.module}.{self.fi.cls}.{f[2]}"
+            if self.model.has_func(q):
+                fi = self.model.func(q)
+            else:
+                return True
+        elif f[0] in ("builtin", "ext") or (f[0] == "attr" and f[1][0] in ("const", "fstr", "ext", "builtin")):
+            return False
+        elif f[0] == "attr":
+            return f[2] not in ("join", "lower", "upper", "strip", "lstrip", "rstrip", "replace", "format", "split", "rsplit",
+                                "partition", "rpartition", "encode", "decode", "find", "rfind", "startswith", "endswith")
+        if fi is None:
+            return True
+        return any(isinstance(n, ast.Return) and isinstance(n.value, ast.Name) and n.value.id == name for n in ast.walk(fi.node))
 
     def e_NamedExpr(self, e, s):
         return [(self.assign(e.target, t, s2, e), t) for s2, t in self.eval(e.value, s)]
@@ -1254,6 +1392,15 @@ class Analyzer:
                 for s3, kvs in self.eval_seq(kwexprs, s2):
                     kwargs = tuple((k.arg, v) for k, v in zip(e.keywords, kvs))
                     args_t = tuple(args)
+                    opname = None
+                    if f[0] == "attr" and f[1] == ("ext", "operator", None):
+                        opname = f[2]
+                    elif f[0] == "ext" and f[1] == "operator":
+                        opname = f[2]
+                    if opname in _OPERATOR_CMP and len(args_t) == 2 and not kwargs:
+                        # operator.lt(a, b) is a < b
+                        out.append((s3, ("cmp", _OPERATOR_CMP[opname], args_t[0], args_t[1])))
+                        continue
                     inl = self._inline_target(f)
                     if inl is not None:
                         out.extend(self._inline(inl, e, f, args_t, kwargs, s3))
@@ -1265,6 +1412,22 @@ class Analyzer:
                         res = ("call", f, args_t, kwargs)
                     s4 = s3
                     mut = None
+                    keyed = self._keyed_update(e, f, args_t, kwargs)
+                    if keyed is not None:
+                        # d.update(k=v, ...) / d.update({"k": v, ...}) is the sequence of stores d["k"] = v
+                        recv = f[1]
+                        s4 = s3.copy()
+                        for key, val in keyed:
+                            idx = ("const", key)
+                            self.event("store_sub", e, s4, base=recv, index=idx, value=val, target=e)
+                            if self.trace is not None and self.trace("store_sub", ("sub", recv, idx)):
+                                s4.trace = s4.trace + (("store", ("sub", recv, idx), val),)
+                            recv = ("mut", recv, "setitem", (idx, val))
+                        if isinstance(e.func.value, ast.Name):
+                            s4.env[self._k(e.func.value.id)] = recv
+                        self.event("call", e, s3, func=f, args=args_t, kwargs=kwargs, value=("call", f, args_t, kwargs), mut=recv)
+                        out.append((s4, NONE))
+                        continue
                     if isinstance(e.func, ast.Attribute) and e.func.attr in MUTATORS:
                         recv = f[1] if f[0] == "attr" else None
                         if recv is not None and not _immutable_recv(recv):
@@ -1398,7 +1561,7 @@ class Analyzer:
             for p, caller_name in arg_names.items():
                 t = st_c.env.get(f"{q}:{p}")
                 if t is not None and t != env.get(p) and t[0] == "mut":
-                    new.env[caller_name] = t        # the helper changed the caller's container in place
+                    new.env[self._k(caller_name)] = t        # the helper changed the caller's container in place
             res.append((new, val))
         return res
 
@@ -1450,6 +1613,25 @@ class Analyzer:
 
     def e_DictComp(self, e, s):
         return self._comp(e, s, "dict", ast.Tuple(elts=[e.key, e.value], ctx=ast.Load()))
+
+
+def _fold_int(op, l, r):
+    """Integer arithmetic on two integer literals is the literal result (`0x41 - 10`, a constant loop counter)."""
+    if l[0] == "const" and r[0] == "const" and type(l[1]) is int and type(r[1]) is int:
+        a, b = l[1], r[1]
+        try:
+            v = {"Add": lambda: a + b, "Sub": lambda: a - b, "Mult": lambda: a * b, "BitOr": lambda: a | b, "BitAnd": lambda: a & b,
+                 "LShift": lambda: a << b if 0 <= b < 64 else None, "RShift": lambda: a >> b if 0 <= b < 64 else None,
+                 "FloorDiv": lambda: a // b if b else None, "Mod": lambda: a % b if b else None}.get(op, lambda: None)()
+        except Exception:
+            v = None
+        if v is not None:
+            return ("const", v)
+    return ("binop", op, l, r)
+
+
+_OPERATOR_CMP = {"lt": "Lt", "le": "LtE", "gt": "Gt", "ge": "GtE", "eq": "Eq", "ne": "NotEq", "is_": "Is", "is_not": "IsNot",
+                 "__lt__": "Lt", "__le__": "LtE", "__gt__": "Gt", "__ge__": "GtE", "__eq__": "Eq", "__ne__": "NotEq"}
 
 
 class _WrapJumps(dict):
